@@ -35,8 +35,14 @@ def putB : Nat := lowerPutB c.geom retries + 4
 def drainB : Nat := 8 * (c.nslots * 3)
 /-- **`LLFree::change_tree`** -/
 def changeB : Nat := c.ntrees * (c.geom.treeHuge + 6) + c.geom.treeHuge + 6
+/-- `stats` (exact view) -/
+def statsB : Nat := c.ntrees * c.geom.treeHuge
+/-- `tree_stats` (fast view: tree pass, two passes over the slots) -/
+def treeStatsB : Nat := c.ntrees + 8 * (c.nslots * 1) + 8 * (c.nslots * 2)
+/-- `stats_at` / `is_free` -/
+def queryB : Nat := c.geom.treeHuge + c.geom.rows + 3
 /-- one number for all public calls of a configuration -/
-def apiB : Nat := getB c + putB c + drainB c + changeB c
+def apiB : Nat := getB c + putB c + drainB c + changeB c + statsB c + treeStatsB c + queryB c
 end
 
 end LLFree
